@@ -14,6 +14,10 @@ impl<T: Into<String>> From<T> for Comment {
 impl Comment {
     /// Write this comment to a css output buffer.
     pub(crate) fn write(&self, buf: &mut CssBuf) {
+        // Compressed output keeps only `/*! ... */` comments.
+        if buf.format().is_compressed() && !self.0.starts_with('!') {
+            return;
+        }
         if self.0.starts_with('#') {
             buf.add_one("\n", "");
             return;
